@@ -44,18 +44,19 @@ vars == <<case, pc, order, src, recs, ents, pos, es, cnt>>
 
 \* ------------------------------------------------------------------ universe
 \* id -> type, size, family (0 = resembles nothing); concrete twin: harness/c02_lib.py universe()
+\* (all blobs of family 2 are prefixes of one incompressible stream)
 U(oid) ==
     LET hex == 2 * oid IN
     << [t |-> BLOB,   size |-> N(0),              fam |-> 0],   \*  1 empty blob
        [t |-> BLOB,   size |-> N(15),             fam |-> 0],   \*  2 last size in one header byte
        [t |-> BLOB,   size |-> N(16),             fam |-> 0],   \*  3 first size needing two
-       [t |-> BLOB,   size |-> N(2047),           fam |-> 1],   \*  4 last size in two header bytes
-       [t |-> BLOB,   size |-> N(2048),           fam |-> 1],   \*  5
+       [t |-> BLOB,   size |-> N(2047),           fam |-> 2],   \*  4 last size in two header bytes
+       [t |-> BLOB,   size |-> N(2048),           fam |-> 2],   \*  5
        [t |-> BLOB,   size |-> N(65535),          fam |-> 2],   \*  6 largest single copy op
        [t |-> BLOB,   size |-> N(65536),          fam |-> 2],   \*  7
        [t |-> BLOB,   size |-> N(65537),          fam |-> 2],   \*  8
-       [t |-> BLOB,   size |-> N(65510),          fam |-> 5],   \*  9 zlib stream of exactly 64 KiB (levels # 0)
-       [t |-> BLOB,   size |-> N(65525),          fam |-> 5],   \* 10 zlib stream of exactly 64 KiB (level 0)
+       [t |-> BLOB,   size |-> N(65510),          fam |-> 2],   \*  9 zlib stream of exactly 64 KiB (levels # 0)
+       [t |-> BLOB,   size |-> N(65525),          fam |-> 2],   \* 10 zlib stream of exactly 64 KiB (level 0)
        [t |-> TREE,   size |-> N(8 * (11 + oid)), fam |-> 3],   \* 11
        [t |-> TREE,   size |-> N(9 * (11 + oid)), fam |-> 3],   \* 12
        [t |-> COMMIT, size |-> N(318 + hex),      fam |-> 4],   \* 13
